@@ -22,6 +22,17 @@ The run is ONE interpreter session (lean/St4sd/Model/RefSession.lean, theorems o
     under test and before the first call to it; every request runs in a fork of that child);
   * an oracle failure that does not show in a fresh interpreter is reported as `result-depends-on-earlier-calls` with the
     (shrunk) sequence of calls that produces it.
+
+Directory worlds (lean/St4sd/Model/RefDir.lean, section 7 of Props/C09.lean): the clause "top-level or manifest folder of the
+package" is driven through the REAL derivation of the folder set from disk.  A generated package directory (real / empty
+directories, files, absolute / relative / chained links to directories inside and outside the package, links to files,
+broken links, link loops, fifos; names colliding with components, reserved folders, application dependencies; hidden and
+dotted names; `conf` itself a link) is built in a scratch directory and the folder set is obtained by
+Manifest.fromDirectory, ExperimentConfigurationFactory.configurationForExperiment (no / dictionary / yaml manifest),
+ExperimentPackage.packageFromLocation + Experiment.experimentFromPackage, Experiment.experimentFromInstance on the created
+instance (restart) and a single-file package whose manifest deploys the folders with :copy / :link; every derived set is
+compared with the model and handed to the classification functions for references into every entry.  The oracle knows
+what is a folder from how the entry was BUILT (as the user sees it with os.path.isdir), never from the code under test.
 """
 from __future__ import annotations
 
@@ -39,6 +50,9 @@ OPS = {
     "expandall": ["refs", "ctx", "known", "deps", "tlf"], "dref": ["v", "i"], "dri": ["v", "stage", "deps"],
     "vrefs": ["v", "known", "implied", "tlf"], "validate": ["v", "stage", "known", "tlf", "deps"],
     "tlf": ["keys"], "appdep": ["v"], "isvar": ["v"],
+    # the folder set derived from disk (section "directory worlds")
+    "fromdir": ["path", "dirs", "files", "resolve", "method"], "pkgload": ["path", "manifest", "consumer"],
+    "instance": ["path", "manifest", "consumer", "location"],
 }
 FOLDER_PARAMS = ("deps", "extra", "tlf")
 TABLES = ("special", "methods", "dr_methods", "varpat")
@@ -92,7 +106,8 @@ class Impl:
         import experiment.model.errors as E
         import experiment.model.data as D
         import experiment.model.conf as C
-        self.M, self.G, self.E, self.D, self.C = M, G, E, D, C
+        import experiment.model.storage as ST
+        self.M, self.G, self.E, self.D, self.C, self.ST = M, G, E, D, C, ST
         self.F = M.FlowIR
         self.src = src or source_tables()
         self.events = []          # in-place changes seen by call(): dicts
@@ -274,6 +289,108 @@ class Impl:
                     "n_unknown": len(unknown), "others": sorted(others)}
         return self._guard(go)
 
+    # -- the folder set derived from disk --------------------------------------------------------
+    def _fromdir(self, path, dirs, files, resolve, method):
+        """Manifest.fromDirectory: keys (os.listdir order), top_level_folders, and whether every value is
+        `<path of the entry>:<method>`"""
+        import os
+
+        def go():
+            man = self.M.Manifest.fromDirectory(path, method=method, resolve_paths=resolve, include_dirs=dirs,
+                                                include_files=files)
+            data = man.manifestData
+            ok = True
+            for k, val in data.items():
+                want = os.path.join(path, k)
+                if resolve:
+                    want = os.path.normpath(os.path.abspath(want))
+                ok = ok and val == "%s:%s" % (want, method)
+            return {"keys": list(data), "tlf": list(man.top_level_folders), "values_ok": ok}
+        return self._guard(go)
+
+    def _consumer_view(self, conf, consumer):
+        """what loading made of the references of the consumer + the unknown-component verdicts"""
+        errs = []
+        conf.validate(errs)
+        unknown, others = [], []
+        for e in errs:
+            if isinstance(e, self.E.FlowIRReferenceToUnknownComponent):
+                unknown.extend(e.references)
+            else:
+                others.append(type(e).__name__)
+        refs = conf.get_flowir_concrete().get_component_configuration(tuple(consumer))['references']
+        return {"tlf": list(conf.top_level_folders), "refs": list(refs), "unknown": sorted(unknown),
+                "others": sorted(others)}
+
+    @staticmethod
+    def _quiet(fn):
+        """the loaders log every configuration error at CRITICAL: keep the run's output readable"""
+        import logging
+        old = logging.root.manager.disable
+        logging.disable(logging.CRITICAL)
+        try:
+            return fn()
+        finally:
+            logging.disable(old)
+
+    def _pkgload(self, path, manifest, consumer):
+        """ExperimentConfigurationFactory.configurationForExperiment(<package>, manifest=None | dict | yaml path)"""
+        def go():
+            man = dict(manifest) if isinstance(manifest, dict) else manifest
+            try:
+                conf = self.C.ExperimentConfigurationFactory.configurationForExperiment(
+                    path, manifest=man, createInstanceFiles=False, updateInstanceFiles=False, validate=False)
+            except self.E.ExperimentInvalidConfigurationError as exc:
+                return {"invalid": type(getattr(exc, "underlyingError", None)).__name__}
+            return self._consumer_view(conf, consumer)
+        return self._quiet(lambda: self._guard(go))
+
+    def _instance(self, path, manifest, consumer, location):
+        """ExperimentPackage.packageFromLocation + Experiment.experimentFromPackage (the instance directory), then
+        Experiment.experimentFromInstance on the directory that was created (a restart loads it like this)"""
+        import os
+        import shutil
+
+        def unknown_refs(exc, depth=0):
+            """references reported as pointing to unknown components anywhere below a loader's exception"""
+            out = []
+            if exc is None or depth > 6:
+                return out
+            if isinstance(exc, self.E.FlowIRReferenceToUnknownComponent):
+                out.extend(exc.references)
+            for attr in ("underlyingError", "underlyingErrors"):
+                sub = getattr(exc, attr, None)
+                for e in (sub if isinstance(sub, (list, tuple)) else [sub]):
+                    if isinstance(e, BaseException):
+                        out.extend(unknown_refs(e, depth + 1))
+            return sorted(set(out))
+
+        def go():
+            exp = None
+            try:
+                try:
+                    pkg = self.ST.ExperimentPackage.packageFromLocation(
+                        path, manifest=dict(manifest) if isinstance(manifest, dict) else manifest, validate=False)
+                    exp = self.D.Experiment.experimentFromPackage(pkg, location=location)
+                except (self.E.ExperimentInvalidConfigurationError, self.E.InstanceCreateError,
+                        self.E.PackageCreateError) as exc:
+                    return {"invalid": type(exc).__name__, "unknown": unknown_refs(exc)}
+                inst = exp.instanceDirectory.location
+                first = self._consumer_view(exp.configuration, consumer)
+                # what the instance directory looks like while it is loaded (lstat + stat, not the code under test)
+                listing = [[n, disk_kind(os.path.join(inst, n))] for n in os.listdir(inst)]
+                try:
+                    exp2 = self.D.Experiment.experimentFromInstance(inst, updateInstanceConfiguration=False)
+                except self.E.ExperimentInvalidConfigurationError as exc:
+                    return {"created": first, "instance": os.path.basename(inst), "listing": listing,
+                            "reload_invalid": type(exc).__name__, "unknown": unknown_refs(exc)}
+                again = self._consumer_view(exp2.configuration, consumer)
+                return {"created": first, "reloaded": again, "instance": os.path.basename(inst), "listing": listing}
+            finally:
+                if exp is not None:
+                    shutil.rmtree(exp.instanceDirectory.shadowDir.location, ignore_errors=True)
+        return self._quiet(lambda: self._guard(go))
+
     # -- conveniences used by the oracle (fresh argument lists) ------------------------------------
     def pdr(self, v):
         return self.call({"op": "pdr", "v": v})
@@ -336,6 +453,10 @@ def exec_case(case):
     sub = common.Ctx("C09", "quick", 0)
     sub.driver = None
     r2 = Run(sub)
+    if "tree" in case["world"]:
+        r2.dir_checks(case["world"], extra_probe=(case["v"], case.get("parts") or {"m": case["v"].rsplit(":", 1)[-1]}),
+                      only_extra=True)
+        return {"slugs": sorted({w for w, _c, _d in sub.failures})}
     tl = r2.impl.tlf(case["world"]["keys"])
     r2.ref_checks(case["world"], case.get("kind", "malformed:replay"), case["v"], case.get("parts"), tl,
                   case.get("variant", DEFAULT_VARIANT), fresh_check=False)
@@ -960,7 +1081,9 @@ class Run:
                              canon_tables(self.batch_start_tables, 0))
             self.ctx.compare("class-level tables after the session", {"session": "batch", "calls": len(self.pending)},
                              outs[-1], canon_tables(live, len(self.pending)))
-            for (rel, case, _req, io), mo in zip(self.pending, outs[1:-1]):
+            for (rel, case, req, io), mo in zip(self.pending, outs[1:-1]):
+                if req.get("sorted") and isinstance(mo, list):
+                    mo = sorted(set(mo))
                 self.ctx.compare(rel, case, mo, io)
         self.batch_start_tables = live
         self.pending = []
@@ -1435,6 +1558,270 @@ class Run:
                     if is_err(vr) or (vr["n_unknown"] == 0) != is_known:
                         ctx.fail("validate-verdict-on-component-reference", case, {"validate": vr, "known": is_known})
 
+    # -- directory worlds --------------------------------------------------------------------
+    def dir_checks(self, world, root=None, extra_probe=None, only_extra=False, label="dir"):
+        """one package directory on disk: every route by which the code derives the folder set from it, the model of the
+        derivation, and the classification of references under each derived set.  Returns a path-free summary."""
+        import os
+        import shutil
+        import tempfile
+        ctx, rng = self.ctx, self.ctx.rng
+        world = {k: v for k, v in world.items() if k != "route"}
+        world["keys"] = expected_folder_keys(world)
+        tree = world["tree"]
+        own = root is None
+        if own:
+            root = tempfile.mkdtemp(prefix="c09-dir-")
+        summary = {}
+        try:
+            pkg, kinds, manifest = materialise(world, root)
+            listing = [[n, kinds[n]] for n in os.listdir(pkg)]
+            path = path_spelling(pkg, tree.get("path", "plain"), root)
+            explicit = list(tree.get("explicit") or {})
+            consumer = [int(world["ctx"]), CONSUMER]
+            _doc, decl = package_document(world)
+            dirish = sorted(n for n, k in kinds.items() if k in DIRISH)
+            fileish = sorted(n for n, k in kinds.items() if k in FILEISH)
+            base_case = {"world": world}
+            derived = []          # (route, folder list handed on by the code, folder keys the oracle expects)
+            tags = ["kind:directory-world", "dir:path-" + tree.get("path", "plain")] + \
+                   sorted({"dir:entry-" + e["kind"] for e in tree["entries"]} | {"dir:conf-" + tree["conf"]})
+            if explicit:
+                tags.append("dir:explicit-manifest-" + str(tree.get("manifest_form")))
+
+            # route 1: Manifest.fromDirectory
+            variants = [(True, False)] + ([(True, True)] if rng.random() < 0.35 else []) + \
+                       ([(False, True)] if rng.random() < 0.1 else [])
+            for dirs, files in variants:
+                resolve, method = rng.random() < 0.7, rng.choice(["copy", "link"])
+                route = "Manifest.fromDirectory" + ("" if (dirs, files) == (True, False) else
+                                                    "(include_dirs=%s,include_files=%s)" % (dirs, files))
+                out = self.impl.call({"op": "fromdir", "path": path, "dirs": dirs, "files": files, "resolve": resolve,
+                                      "method": method})
+                if self.impl.events:
+                    self.process_events()
+                self.queue(route + " keys", dict(base_case, route=route),
+                           {"op": "fromdir", "listing": listing, "dirs": dirs, "files": files, "sorted": True},
+                           sorted(out["keys"]) if isinstance(out, dict) and "keys" in out else out)
+                summary[route] = sorted(out["keys"]) if isinstance(out, dict) and "keys" in out else out
+                if isinstance(out, dict) and "keys" in out:
+                    if sorted(out["tlf"]) != sorted(out["keys"]):
+                        ctx.fail("implied-manifest-inconsistent", dict(base_case, route=route), out)
+                    want = (dirish if dirs else []) + (fileish if files else [])
+                    derived.append((route, out["tlf"], sorted(want)))
+            not_dir = self.impl.call({"op": "fromdir", "path": os.path.join(pkg, "conf", "flowir_package.yaml"),
+                                      "dirs": True, "files": True, "resolve": True, "method": "copy"})
+            self.queue("Manifest.fromDirectory(not a directory) keys", base_case,
+                       {"op": "fromdir", "listing": None, "dirs": True, "files": True},
+                       not_dir["keys"] if isinstance(not_dir, dict) and "keys" in not_dir else not_dir)
+
+            # route 2: loading the package (implied manifest merged into the explicit one)
+            folder_keys = sorted(set(dirish) | set(explicit))
+            out = self.impl.call({"op": "pkgload", "path": path, "manifest": manifest, "consumer": consumer})
+            route = "configurationForExperiment(package)"
+            self.queue(route + " top_level_folders", dict(base_case, route=route),
+                       {"op": "pkgtlf", "listing": listing, "explicit": explicit, "sorted": True},
+                       sorted(set(out["tlf"])) if isinstance(out, dict) and "tlf" in out else out)
+            if isinstance(out, dict) and "tlf" in out:
+                summary[route] = {"tlf": sorted(out["tlf"]), "refs": out["refs"], "unknown": out["unknown"]}
+                self.load_oracle(dict(world, keys=folder_keys, route=route), route, out, decl)
+                derived.append((route, out["tlf"], folder_keys))
+            else:
+                summary[route] = out
+                ctx.tag("dir:package-load-failed")
+
+            # route 3: the instance directory created from the package, and loaded again (restart)
+            if not explicit and not world["deps"] and "other" not in kinds.values() and \
+                    (rng.random() < 0.6 or extra_probe is not None):
+                route = "experimentFromPackage"
+                out = self.impl.call({"op": "instance", "path": path, "manifest": None, "consumer": consumer,
+                                      "location": root})
+                if isinstance(out, dict) and "created" in out:
+                    inst = os.path.join(root, out["instance"])
+                    ilisting = out["listing"]
+                    for phase, rt in (("created", route), ("reloaded", "experimentFromInstance(reload)")):
+                        if phase not in out:
+                            self.load_rejected(dict(world, keys=dirish, route=rt), rt, out, decl)
+                            continue
+                        view = out[phase]
+                        self.queue(rt + " top_level_folders ⊇ package folders + input/stages/output",
+                                   dict(base_case, route=rt), {"op": "insttlf", "listing": listing, "sorted": True},
+                                   sorted(set(view["tlf"]) - {"python"}))
+                        if phase == "reloaded":
+                            self.queue(rt + " top_level_folders = implied manifest of the instance directory",
+                                       dict(base_case, route=rt),
+                                       {"op": "fromdir", "listing": ilisting, "dirs": True, "files": False, "sorted": True},
+                                       sorted(set(view["tlf"])))
+                        self.load_oracle(dict(world, keys=dirish, route=rt), rt, view, decl)
+                        derived.append((rt, view["tlf"], dirish))
+                        summary[rt] = {"tlf": sorted(set(view["tlf"]) - {"python"}), "refs": view["refs"],
+                                       "unknown": view["unknown"]}
+                    shutil.rmtree(inst, ignore_errors=True)
+                else:
+                    summary[route] = out
+                    ctx.tag("dir:instance-not-created")
+                    self.load_rejected(dict(world, keys=dirish, route=route), route, out, decl)
+
+            # route 4: a single-file package whose manifest deploys the folders (:copy / :link), instance loaded again
+            if not explicit and not world["deps"] and (rng.random() < 0.3 or extra_probe is not None):
+                self.deployed_manifest_route(world, root, pkg, kinds, consumer, decl, derived, summary)
+
+            ctx.case({"kind": "directory-world", "world": world}, nontrivial=bool(set(kinds.values()) & {"linkdir", "dir"}) and
+                     len(kinds) > 1, tags=tags + ["dir:routes-%d" % len(derived)])
+
+            # classification of references under every derived folder set
+            probes = [] if only_extra else dir_probes(rng, world, self.methods)
+            if extra_probe is not None:
+                probes.append(tuple(extra_probe))
+            seen = set()
+            for n, (route, tl, keys) in enumerate(derived):
+                if not isinstance(tl, list):
+                    continue
+                sig = (tuple(sorted(tl)), tuple(keys))
+                sub = probes if sig not in seen else rng.sample(probes, min(len(probes), 3))
+                seen.add(sig)
+                w = dict(world, keys=keys, route=route)
+                self.nworld += 1
+                objs = world_objects("w%d" % self.nworld, w, tl)
+                for v, parts in sub:
+                    kind, parts2 = dir_rekind(w, self.special, v, parts)
+                    if kind is None:
+                        continue
+                    variant = gen_variant(rng, w)
+                    variant["opt"].update({"full_extra": "list", "isc_tlf": "list", "all_tlf": "list"})
+                    # FlowIRConcrete.validate costs ~45 ms a call: the load routes above already ran it on the package
+                    variant["validate"], variant["validate2"] = rng.random() < 0.02, rng.random() < 0.04
+                    self.ref_checks(w, kind, v, parts2, tl, variant, objs, fresh_check=False)
+                    ctx.tag("dir:probe-" + route.split("(")[0])
+        finally:
+            if own:
+                shutil.rmtree(root, ignore_errors=True)
+        return summary
+
+    def deployed_manifest_route(self, world, root, pkg, kinds, consumer, decl, derived, summary):
+        """package = one FlowIR file + a manifest that copies / links the folders into the instance directory"""
+        import os
+        import shutil
+        src = os.path.join(root, "deploy-src")
+        os.makedirs(src, exist_ok=True)
+        single = os.path.join(root, "single-file.yaml")
+        shutil.copyfile(os.path.join(pkg, "conf", "flowir_package.yaml"), single)
+        manifest = {}
+        deploy = []
+        for e in world["tree"]["entries"]:
+            k = kinds[e["name"]]
+            if k not in DIRISH:
+                continue
+            d = os.path.join(src, e["name"])
+            if not os.path.isdir(d):
+                os.makedirs(os.path.join(d, "nested", "dir"))
+                for f in ("params.txt", os.path.join("nested", "dir", "f")):
+                    with open(os.path.join(d, f), "w") as fh:
+                        fh.write("x\n")
+            method = "link" if k == "linkdir" else "copy"
+            manifest[e["name"]] = "%s:%s" % (d, method)
+            deploy.append((e["name"], method))
+        keys = sorted(manifest)
+        route = "experimentFromPackage(single file + manifest)"
+        out = self.impl.call({"op": "instance", "path": single, "manifest": manifest, "consumer": consumer,
+                              "location": root})
+        case = {"world": dict(world, route=route)}
+        if not (isinstance(out, dict) and "created" in out):
+            summary[route] = out
+            self.ctx.tag("dir:deployed-instance-not-created")
+            self.load_rejected(dict(world, keys=keys, route=route), route, out, decl)
+            return
+        inst = os.path.join(root, out["instance"])
+        ilisting = out["listing"]
+        for name, method in deploy:
+            self.queue("deployed manifest entry", case, {"op": "deploy", "key": name, "method": method},
+                       [name, dict(ilisting).get(name) in DIRISH])
+        for phase, rt in (("created", route), ("reloaded", "experimentFromInstance(reload, deployed manifest)")):
+            if phase not in out:
+                self.load_rejected(dict(world, keys=keys, route=rt), rt, out, decl)
+                continue
+            view = out[phase]
+            if phase == "reloaded":
+                self.queue(rt + " top_level_folders = implied manifest of the instance directory", case,
+                           {"op": "fromdir", "listing": ilisting, "dirs": True, "files": False, "sorted": True},
+                           sorted(set(view["tlf"])))
+            self.load_oracle(dict(world, keys=keys, route=rt), rt, view,
+                             [r for r in decl if first_segment(r.rsplit(":", 1)[0]) in keys or r == decl[-1]])
+            derived.append((rt, view["tlf"], keys))
+            summary[rt] = {"tlf": sorted(set(view["tlf"]) - {"python"}), "refs": view["refs"], "unknown": view["unknown"]}
+        shutil.rmtree(inst, ignore_errors=True)
+
+    def load_rejected(self, world, route, out, declared):
+        """ORACLE when a loader refuses the package / instance: none of the references it reports as pointing to unknown
+        components is a declared reference into a folder the oracle expects"""
+        if not isinstance(out, dict):
+            return
+        here = world["known"].get(str(world["ctx"]), [])
+        folders = set(world_folders(world, self.special)[2]) | {self.impl.appdep(d) for d in world["deps"]}
+        self.ctx.tag("oracle:package-load-rejected")
+        for r in declared:
+            seg = first_segment(r.rsplit(":", 1)[0])
+            if seg in folders and seg not in here and \
+                    any(unknown_names(u, r, seg) for u in out.get("unknown") or []):
+                self.ctx.fail("package-load-treats-folder-reference-as-component", {"world": world, "v": r},
+                              {"route": route, "how": "rejected: reference to unknown component", "loader": out})
+                return
+
+    def load_oracle(self, world, route, view, declared):
+        """ORACLE on a loaded package / instance: a declared reference whose first segment is a folder the oracle expects
+        (world["keys"]) is kept as it is and not reported as a reference to an unknown component; the reference to the
+        known producer of the consumer's stage is rewritten to its absolute spelling"""
+        ctx = self.ctx
+        here = world["known"].get(str(world["ctx"]), [])
+        folders = set(world_folders(world, self.special)[2]) | {self.impl.appdep(d) for d in world["deps"]}
+        ctx.tag("oracle:package-load")
+        for r in declared:
+            seg = first_segment(r.rsplit(":", 1)[0])
+            if seg in folders and seg not in here:
+                bad = None
+                if r not in view["refs"]:
+                    bad = "rewritten"
+                elif any(unknown_names(u, r, seg) for u in view["unknown"]):
+                    bad = "reported-unknown"
+                if bad:
+                    ctx.fail("package-load-treats-folder-reference-as-component", {"world": world, "v": r},
+                             {"route": route, "how": bad, "references_after_load": view["refs"],
+                              "unknown_component_references": view["unknown"], "top_level_folders": view["tlf"]})
+            elif seg in here and seg not in folders and seg not in ("python", "input", "stages", "output"):
+                want = "stage%d.%s" % (world["ctx"], r)
+                if want not in view["refs"]:
+                    ctx.fail("package-load-does-not-expand-known-component-reference", {"world": world, "v": r},
+                             {"route": route, "references_after_load": view["refs"], "top_level_folders": view["tlf"]})
+
+    def dir_family_checks(self, worlds):
+        """the same package PATH is rebuilt with other contents (same names, other kinds) and then rebuilt as it was: every
+        answer is a function of what is on disk now, not of what was there before"""
+        import os
+        import shutil
+        import tempfile
+        root = tempfile.mkdtemp(prefix="c09-dirfam-")
+        cur = os.path.join(root, "current")       # the package lives at <root>/current/wf.package every time
+        first = {}
+        try:
+            order = list(range(len(worlds))) + [0]
+            for pos, wi in enumerate(order):
+                shutil.rmtree(cur, ignore_errors=True)
+                os.makedirs(cur)
+                summ = self.dir_checks(worlds[wi], root=cur)
+                if wi not in first:
+                    first[wi] = summ
+                elif pos == len(order) - 1:
+                    self.ctx.tag("dir:same-path-rebuilt")
+                    a, b = first[wi], summ
+                    for k in ("Manifest.fromDirectory", "configurationForExperiment(package)"):
+                        if k in a and k in b and a[k] != b[k]:
+                            self.ctx.fail("result-depends-on-earlier-calls",
+                                          {"dirfamily": worlds, "session": {"calls": [], "note": "same package path rebuilt"}},
+                                          {"route": k, "first": a[k], "after_other_contents_at_the_same_path": b[k]})
+                            break
+        finally:
+            shutil.rmtree(root, ignore_errors=True)
+
     def _validate_canon(self, vr, known):
         """what the model answers: null, or the identifier of the missing component"""
         if is_err(vr):
@@ -1442,6 +1829,288 @@ class Run:
         if vr["n_unknown"] == 0:
             return None
         return vr["unknown"][0]
+
+
+# ----------------------------------------------------------------------------------------
+# directory worlds: the top-level folder set is DERIVED FROM DISK by the real code
+# (Manifest.fromDirectory / configurationForExperiment / instance directory created and loaded again),
+# then handed to the classification functions.  Model: lean/St4sd/Model/RefDir.lean.
+# ----------------------------------------------------------------------------------------
+
+# how an entry of the package directory is built -> what it is for the model (Kind of Model/RefDir.lean)
+DIR_KINDS = {"dir": "dir", "emptydir": "dir", "file": "file", "link-dir-out": "linkdir", "link-dir-rel-out": "linkdir",
+             "link-dir-in": "linkdir", "link-dir-nested": "linkdir", "link-link-dir": "linkdir",
+             "link-file": "linkfile", "link-link-file": "linkfile", "broken": "broken", "loop": "broken", "fifo": "other"}
+KIND_WEIGHTS = [("dir", 6), ("emptydir", 2), ("file", 4), ("link-dir-out", 6), ("link-dir-rel-out", 2), ("link-dir-in", 3),
+                ("link-dir-nested", 2), ("link-link-dir", 2), ("link-file", 2), ("link-link-file", 1), ("broken", 2),
+                ("loop", 1), ("fifo", 1)]
+DIRISH = ("dir", "linkdir")
+FILEISH = ("file", "linkfile")
+# names that the instance machinery creates itself / handles specially
+DIR_NAME_EXCLUDE = {"input", "stages", "output", "hooks", "python", "conf", "", ".", ".."}
+DIR_FIXED_NAMES = ["forcefield", "dataset", "README.md", "my.data", "Data", "lib64", ".git", ".cache", ".store", "x_1",
+                   "manifest.yaml", "deploy", "Bin"]
+CONSUMER = "zz-consumer"
+
+
+def gen_dirworld(rng, special, base=None):
+    """a world whose folder set lives on disk: world["tree"] describes the package directory, world["keys"] is what the
+    ORACLE expects the folder keys to be (entries built as directories or links to directories + explicit manifest keys)"""
+    import copy
+    base = copy.deepcopy(base) if base else gen_world(rng, special)
+    # a package that is loaded completely needs stages numbered 0..n-1 and components without loop prefixes
+    order = sorted(base["known"], key=int)
+    renum = {s: str(n) for n, s in enumerate(order)}
+    known = {renum[s]: ([n for n in ns if "#" not in n] or ["c%s" % renum[s]]) for s, ns in base["known"].items()}
+    ctx = int(renum[str(base["ctx"])]) if str(base["ctx"]) in renum else 0
+    here = known[str(ctx)]
+    others = [n for s, ns in known.items() if s != str(ctx) for n in ns]
+    dn = [x for x in (oracle_dep_name(d) for d in base["deps"]) if x]
+    pools = [(here, 2), (others, 2), ([x for x in special if x not in DIR_NAME_EXCLUDE], 3), (dn, 2),
+             (DIR_FIXED_NAMES, 6), (None, 4)]
+    pools = [(p, w) for p, w in pools if p is None or p]
+    names = []
+    for _ in range(rng.randint(2, 7)):
+        p = rng.choices([p for p, _w in pools], weights=[w for _p, w in pools])[0]
+        n = gen_plain_name(rng) if p is None else rng.choice(p)
+        if n in DIR_NAME_EXCLUDE or n in names or stage_prefixed(n) or "/" in n or ":" in n:
+            continue
+        names.append(n)
+    entries = []
+    for n in names:
+        k = rng.choices([k for k, _w in KIND_WEIGHTS], weights=[w for _k, w in KIND_WEIGHTS])[0]
+        entries.append({"name": n, "kind": k})
+    real = [e["name"] for e in entries if e["kind"] == "dir"]
+    for e in entries:
+        if e["kind"] in ("link-dir-in", "link-dir-nested"):
+            cands = [x for x in real if x != e["name"]]
+            if cands:
+                e["target"] = rng.choice(cands)
+            else:
+                e["kind"] = "link-dir-out"
+    explicit = None
+    form = None
+    r = rng.random()
+    if r < 0.4:
+        explicit = {}
+        cand = list(base["keys"]) + [gen_plain_name(rng) + "/sub"] + [e["name"] for e in entries]
+        for k in rng.sample(cand, min(len(cand), rng.randint(1, 3))):
+            k = k.strip("/")
+            if not k or stage_prefixed(k) or ".." in k.split("/") or first_segment(k) in DIR_NAME_EXCLUDE:
+                continue
+            explicit[k] = rng.choice([":copy", ":link", ""])
+        form = rng.choice(["dict", "file"])
+    tree = {"entries": entries, "conf": "link-dir-out" if rng.random() < 0.12 else "dir", "explicit": explicit,
+            "manifest_form": form, "path": rng.choice(["plain", "plain", "slash", "via-link", "relative"])}
+    world = {"known": known, "ctx": ctx, "deps": base["deps"], "tree": tree}
+    world["keys"] = expected_folder_keys(world)
+    return world
+
+
+def expected_folder_keys(world):
+    """ORACLE (by construction, not by asking the code): the folder keys of the package = entries of the package
+    directory that were built as a directory or as a (chain of) link(s) to a directory, `conf`, + explicit manifest keys"""
+    tree = world["tree"]
+    keys = [e["name"] for e in tree["entries"] if DIR_KINDS[e["kind"]] in DIRISH] + ["conf"]
+    for k in (tree.get("explicit") or {}):
+        if k not in keys:
+            keys.append(k)
+    return sorted(keys)
+
+
+def package_document(world):
+    """the FlowIR of the package: the known components + a consumer of the context stage that declares references into
+    the folders the oracle expects (those that do not clash with a component of its stage) and to a known producer"""
+    known, ctx = world["known"], world["ctx"]
+    comps = []
+    for s, ns in sorted(known.items(), key=lambda kv: int(kv[0])):
+        for n in ns:
+            comps.append({"name": n, "stage": int(s), "command": {"executable": "ls"}})
+    here = known.get(str(ctx), [])
+    refs = []
+    for n, k in enumerate(world["keys"]):
+        if first_segment(k) in here or stage_prefixed(k) or k == "conf":
+            continue
+        refs.append("%s%s:%s" % (k, ["", "/params.txt", "/nested/dir/f"][n % 3], ["ref", "copy", "link"][n % 3]))
+    prod = [n for n in here if n not in [first_segment(k) for k in world["keys"]] and n != CONSUMER and
+            n not in [oracle_dep_name(d) for d in world["deps"]]]
+    if prod:
+        refs.append("%s/out.txt:ref" % prod[0])
+    comps.append({"name": CONSUMER, "stage": int(ctx), "command": {"executable": "ls"}, "references": refs})
+    doc = {"components": comps}
+    if world["deps"]:
+        doc["application-dependencies"] = {"default": list(world["deps"])}
+    return doc, refs
+
+
+def materialise(world, root, name="wf.package"):
+    """build the package directory of world["tree"] under root; returns (package path, {entry name: model kind})"""
+    import os
+    import yaml
+    tree = world["tree"]
+    pkg = os.path.join(root, name)
+    out = os.path.join(root, "outside-" + name)
+    os.makedirs(pkg)
+    os.makedirs(out)
+
+    def fill(d):
+        os.makedirs(os.path.join(d, "nested", "dir"))
+        for f in ("params.txt", os.path.join("nested", "dir", "f")):
+            with open(os.path.join(d, f), "w") as fh:
+                fh.write("x\n")
+    doc, _refs = package_document(world)
+    entries = [{"name": "conf", "kind": tree["conf"]}] + list(tree["entries"])
+    kinds = {}
+    later = []
+    for e in entries:
+        n, k = e["name"], e["kind"]
+        p = os.path.join(pkg, n)
+        o = os.path.join(out, n)
+        kinds[n] = DIR_KINDS[k]
+        if k == "dir":
+            fill(p)
+        elif k == "emptydir":
+            os.mkdir(p)
+        elif k == "file":
+            with open(p, "w") as fh:
+                fh.write("not a folder\n")
+        elif k == "fifo":
+            os.mkfifo(p)
+        elif k == "link-dir-out":
+            fill(o + ".d")
+            os.symlink(o + ".d", p)
+        elif k == "link-dir-rel-out":
+            fill(o + ".d")
+            os.symlink(os.path.join("..", os.path.basename(out), n + ".d"), p)
+        elif k == "link-link-dir":
+            fill(o + ".d")
+            os.symlink(o + ".d", o + ".lnk")
+            os.symlink(o + ".lnk", p)
+        elif k == "link-file":
+            with open(o + ".f", "w") as fh:
+                fh.write("x\n")
+            os.symlink(o + ".f", p)
+        elif k == "link-link-file":
+            with open(o + ".f", "w") as fh:
+                fh.write("x\n")
+            os.symlink(o + ".f", o + ".flnk")
+            os.symlink(o + ".flnk", p)
+        elif k == "broken":
+            os.symlink(o + ".gone", p)
+        elif k == "loop":
+            os.symlink(n, p)
+        else:
+            later.append(e)
+    for e in later:
+        p = os.path.join(pkg, e["name"])
+        if e["kind"] == "link-dir-in":
+            os.symlink(e["target"], p)                              # relative link to a sibling directory
+        else:
+            os.symlink(os.path.join(e["target"], "nested"), p)      # relative link to a directory inside a sibling
+    confdir = os.path.join(pkg, "conf")
+    with open(os.path.join(confdir, "flowir_package.yaml"), "w") as fh:
+        yaml.safe_dump(doc, fh)
+    # sources of the explicit manifest
+    manifest = None
+    if tree.get("explicit") is not None:
+        manifest = {}
+        for n, (k, suffix) in enumerate(tree["explicit"].items()):
+            src = os.path.join(out, "manifest-src-%d" % n)
+            fill(src)
+            manifest[k] = src + suffix
+        if tree.get("manifest_form") == "file":
+            mp = os.path.join(out, "manifest.yaml")
+            with open(mp, "w") as fh:
+                yaml.safe_dump(manifest, fh, sort_keys=False)
+            manifest = mp
+    # self-check of the harness: what was built is what the model is told
+    for n, k in kinds.items():
+        assert disk_kind(os.path.join(pkg, n)) == k, (n, k, disk_kind(os.path.join(pkg, n)))
+    return pkg, kinds, manifest
+
+
+def disk_kind(p):
+    """Kind of Model/RefDir.lean of a path, by lstat + stat (independent of the code under test)"""
+    import os
+    import stat
+    st = os.lstat(p)
+    if stat.S_ISLNK(st.st_mode):
+        try:
+            t = os.stat(p)
+        except OSError:
+            return "broken"
+        return "linkdir" if stat.S_ISDIR(t.st_mode) else ("linkfile" if stat.S_ISREG(t.st_mode) else "other")
+    return "dir" if stat.S_ISDIR(st.st_mode) else ("file" if stat.S_ISREG(st.st_mode) else "other")
+
+
+def path_spelling(pkg, how, root):
+    import os
+    if how == "slash":
+        return pkg + "/"
+    if how == "via-link":
+        lnk = os.path.join(root, "link-to-" + os.path.basename(pkg))
+        if not os.path.lexists(lnk):
+            os.symlink(pkg, lnk)
+        return lnk
+    if how == "relative":
+        return os.path.relpath(pkg)
+    return pkg
+
+
+def unknown_names(u, r, seg):
+    """does the entry `u` of FlowIRReferenceToUnknownComponent.references (a reference string or the identifier
+    `stage<N>.<name>` of the missing producer) stand for the declared reference `r`, whose first path segment is `seg`?"""
+    import re
+    if u == r or u.endswith("." + r):
+        return True
+    m = re.match(r"stage[0-9]+\.(.*)$", u)
+    body = m.group(1) if m else u
+    body = body.rsplit(":", 1)[0] if ":" in body else body
+    return body == seg or body.split("/", 1)[0] == seg
+
+
+def dir_probes(rng, world, methods, per=2):
+    """reference strings into every entry of the package directory (whatever it is) and every explicit key"""
+    names = [e["name"] for e in world["tree"]["entries"]] + list(world["tree"].get("explicit") or {})
+    out = []
+    for n in names:
+        for _ in range(per):
+            f = rng.choice([None, "params.txt", "nested/dir/f", "nested"])
+            m = rng.choice(methods)
+            out.append(("%s%s:%s" % (n, "" if f is None else "/" + f, m),
+                        dict(stage=None, prod=first_segment(n), file=f if "/" not in n else None, m=m)))
+    return out
+
+
+def dir_rekind(world, special, v, parts):
+    """kind of the probe for the oracle: by the folder keys the ORACLE expects (world["keys"])"""
+    prod = v.rsplit(":", 1)[0].split("/", 1)[0]
+    if stage_prefixed(prod):
+        return None, None
+    if prod in world["known"].get(str(world["ctx"]), []):
+        return "clash", None
+    pre = v.rsplit(":", 1)[0]
+    rest = pre.split("/", 1)[1] if "/" in pre else None
+    return rekind(world, special, "comp-rel", v, dict(stage=None, prod=prod, file=rest, m=parts["m"]))
+
+
+def gen_dir_family(rng, special):
+    """three package directories with the SAME entry names in different roles (directory / link to a directory / file /
+    broken link ...), to be built one after the other at the same path"""
+    import copy
+    w1 = gen_dirworld(rng, special)
+    out = [w1]
+    swap = {'dir': 'file', 'emptydir': 'broken', 'file': 'link-dir-out', 'link-dir-out': 'link-file', 'link-dir-rel-out': 'file',
+            'link-dir-in': 'broken', 'link-dir-nested': 'file', 'link-link-dir': 'loop', 'link-file': 'dir',
+            'link-link-file': 'link-link-dir', 'broken': 'dir', 'loop': 'link-dir-out', 'fifo': 'emptydir'}
+    for _ in range(2):
+        w = copy.deepcopy(out[-1])
+        for e in w['tree']['entries']:
+            e['kind'] = swap[e['kind']]
+            e.pop('target', None)
+        w['keys'] = expected_folder_keys(w)
+        out.append(w)
+    return out
 
 
 def gen_variant(rng, world):
@@ -1488,6 +2157,24 @@ CORPUS_SESSIONS = [
 ]
 
 
+# package directories: a shared dataset linked into the package, a linked `conf`, hidden and dotted names, a name that is
+# a component of another stage, every kind of non-folder
+CORPUS_DIRS = [
+    {"known": {"0": ["producer", "dataset2"], "1": ["forcefield"]}, "ctx": 0, "deps": [],
+     "tree": {"entries": [{"name": "forcefield", "kind": "link-dir-out"}, {"name": "dataset", "kind": "dir"},
+                          {"name": "README.md", "kind": "file"}, {"name": "latest", "kind": "link-file"},
+                          {"name": "gone", "kind": "broken"}, {"name": ".store", "kind": "link-dir-nested", "target": "dataset"},
+                          {"name": "my.data", "kind": "link-link-dir"}],
+              "conf": "dir", "explicit": None, "manifest_form": None, "path": "plain"}},
+    {"known": {"0": ["producer"]}, "ctx": 0, "deps": ["/opt/apps/Solver.application"],
+     "tree": {"entries": [{"name": "data", "kind": "link-dir-rel-out"}, {"name": "bin", "kind": "dir"},
+                          {"name": "solver", "kind": "file"}, {"name": "pipe", "kind": "fifo"},
+                          {"name": "self", "kind": "loop"}, {"name": "mirror", "kind": "link-dir-in", "target": "bin"}],
+              "conf": "link-dir-out", "explicit": {"extra/sub": ":link", "mirror": ""}, "manifest_form": "file",
+              "path": "via-link"}},
+]
+
+
 def classify_none(what, case, detail):
     return False
 
@@ -1507,6 +2194,22 @@ def shrinker_for(run):
         def fails(c):
             return what in (run.zy.run({"case": c}).get("slugs") or [])
         best = copy.deepcopy(case)
+        if "tree" in case["world"]:
+            seg = first_segment(case["v"].rsplit(":", 1)[0])
+            if not fails(best):
+                return None
+            for e in list(best["world"]["tree"]["entries"]):
+                if e["name"] == seg:
+                    continue
+                cand = copy.deepcopy(best)
+                ents = [x for x in cand["world"]["tree"]["entries"] if x["name"] != e["name"]]
+                if any(x.get("target") == e["name"] for x in ents):
+                    continue
+                cand["world"]["tree"]["entries"] = ents
+                if fails(cand):
+                    best = cand
+            best["world"]["keys"] = expected_folder_keys(best["world"])
+            return best
         keep = (case.get("parts") or {}).get("prod")
         for field in ("deps", "keys"):
             items = best["world"][field]
@@ -1555,8 +2258,16 @@ def run(ctx):
                 "object, a fresh copy, None, an empty container); 40% of the cases come from families of five worlds that use "
                 "the same names in different roles (component / application dependency / manifest folder / nothing), every "
                 "string of the family being evaluated under every world of the family in shuffled order; the whole run is ONE "
-                "interpreter session (see extra.session); non-trivial = the string parses (ParseDataReferenceFull does not "
-                "raise); distinct by canonical JSON of (kind, string, world, variant)")
+                "interpreter session (see extra.session); directory worlds: world + a package directory tree (2-7 entries of 13 "
+                "construction kinds: directories, files, absolute/relative/chained links to directories and files, broken "
+                "links, loops, fifos; names from the components of the same / other stages, reserved folders, app-dep names, "
+                "hidden/dotted names; optional explicit manifest as dictionary or yaml file; package path plain / trailing "
+                "slash / through a link / relative) whose folder set is derived by the real code (Manifest.fromDirectory, "
+                "configurationForExperiment, experimentFromPackage, experimentFromInstance, deployed manifest) and then used to "
+                "classify references into every entry; families of three trees with the same names in other roles are built "
+                "one after the other at the same path; non-trivial = the string parses (ParseDataReferenceFull does not "
+                "raise) resp. the tree has >= 2 entries one of which is a directory or a link to one; distinct by canonical "
+                "JSON of (kind, string, world, variant)")
     ctx.assumptions = ["generated strings are ASCII (Python's \\d and str.lower() are only modelled on ASCII)",
                        "component names never contain '/' or ':'; for the classification oracle folder names and the "
                        "names of the components of the context stage are disjoint (the clash stream is compared with the "
@@ -1564,10 +2275,17 @@ def run(ctx):
                        "FlowIRConcrete.validate is exercised on a two-level workflow (producers + one consumer declaring the "
                        "reference, no arguments, no '#' names)",
                        "history independence is checked against interpreters forked before the first call to the code under "
-                       "test (same imports, nothing parsed yet)"]
+                       "test (same imports, nothing parsed yet)",
+                       "directory worlds: POSIX file system with symbolic links and fifos; os.listdir / os.path.isdir / "
+                       "shutil.copytree behave as documented; instance routes only for packages without application "
+                       "dependencies and without explicit manifest; the `python` link that instance creation adds depending on "
+                       "the environment is ignored"]
     ctx.trusted.append("C09: os.path.split/join/splitext re-modelled structurally in Model/Ref.lean (posixSplit, pathJoin, "
                        "splitextRoot), regex prefix/search semantics of stage([0-9]+), VariablePattern and \\[(\\d+)\\] re-modelled "
                        "as list functions; pinned by the regenerated sources in Gen/C09.lean and compared on every run")
+    ctx.trusted.append("C09: directory worlds — os.listdir / os.path.isdir / os.path.isfile (links followed) are modelled by the "
+                       "entry kinds of Model/RefDir.lean; the kind of every generated entry is fixed by construction and "
+                       "cross-checked with lstat + stat before the code under test sees the directory")
     r = Run(ctx)
     ctx.classifiers = CLASSIFIERS
     ctx.shrinker = shrinker_for(r)
@@ -1583,6 +2301,8 @@ def run(ctx):
         r.do("is_var_reference", {"v": v}, {"op": "isvar", "v": v}, None)
     for n, sess in enumerate(CORPUS_SESSIONS):
         run_session_case(r, sess, "corpus-%d" % n)
+    for w in CORPUS_DIRS:
+        r.dir_checks(dict(w))
     for c in CORPUS:
         c = dict(c)
         c.setdefault("variant", DEFAULT_VARIANT)
@@ -1593,7 +2313,9 @@ def run(ctx):
     per = 26
     per_family_world = 5
     block = 15
-    units = ["w"] * nworlds + ["f"] * nfamilies
+    ndirs = 64 if quick else 560
+    ndirfams = 5 if quick else 40
+    units = ["w"] * nworlds + ["f"] * nfamilies + ["d"] * ndirs + ["df"] * ndirfams
     rng.shuffle(units)
     for un, unit in enumerate(units):
         if unit == "w":
@@ -1608,6 +2330,10 @@ def run(ctx):
             if rng.random() < 0.5:
                 k = rng.choice([0, 1, 2, 3, 5])
                 r.list_checks(world, objs, rng.sample(refs, k), {k2: rng.choice(MODES) for k2 in OPT_KEYS})
+        elif unit == "d":
+            r.dir_checks(gen_dirworld(rng, r.special))
+        elif unit == "df":
+            r.dir_family_checks(gen_dir_family(rng, r.special))
         else:
             worlds = gen_family(rng, r.special)
             prepared = []
@@ -1643,7 +2369,7 @@ def replay(ctx, doc):
     case = doc.get("input") or doc["no_longer_checks"][-1]["input"]
     r = Run(ctx)
     ctx.classifiers = CLASSIFIERS
-    if "session" in case and isinstance(case["session"], dict):
+    if "session" in case and isinstance(case["session"], dict) and "dirfamily" not in case:
         sess = case["session"]
         if sess.get("calls"):
             run_session_case(r, sess, "replay")
@@ -1652,6 +2378,13 @@ def replay(ctx, doc):
         out = r.do("application_dependency_to_name", case, {"op": "appdep", "v": case["dep"]}, None)
         if oracle_dep_name(case["dep"]) is not None and out != oracle_dep_name(case["dep"]):
             ctx.fail("application-dependency-name", case, {"impl": out})
+    elif "dirfamily" in case:
+        r.dir_family_checks(case["dirfamily"])
+    elif "world" in case and "tree" in case["world"]:
+        probe = None
+        if "v" in case:
+            probe = (case["v"], case.get("parts") or {"m": case["v"].rsplit(":", 1)[-1]})
+        r.dir_checks(case["world"], extra_probe=probe)
     elif "v" in case and "world" in case:
         tl = r.world_checks(case["world"])
         r.ref_checks(case["world"], case.get("kind", "malformed:replay"), case["v"], case.get("parts"), tl,
